@@ -32,6 +32,7 @@ theorem accMono_closed (i : Nat) (r : Stmt) : PC.Closed (fun s => r ∈ (s.th i)
   lastFlush := fun _ _ h => h
   siteCnt := fun _ _ h => h
   emitInj := fun _ _ _ _ _ h => h
+  note := fun _ h => h
   clock := fun _ _ h => h
   gone := fun _ h => h
   refresh := fun s h => by rw [((fr_refresh s).th i).acc]; exact h
